@@ -541,6 +541,16 @@ func (m *Model) Step(u *ops.Universe, op ops.Op, out ops.Out) string {
 				return wantErr("DENIED")
 			}
 		}
+		if m.Immutable {
+			// a manifest that a tag depends on cannot be stored again under another media
+			// type (that would change what it is considered to refer to)
+			if old, had := r.Mans[d.Digest]; had && old.MT != mt {
+				if prot, _ := r.Protected(d.Digest); prot {
+					m.ev("immutable-retype-refusal")
+					return wantErr("DENIED")
+				}
+			}
+		}
 		if mt == "" {
 			return wantErr()
 		}
